@@ -205,6 +205,22 @@ class Interp:
             exp = sorted(m2['ids'][i] for i in self.expected_cx(m2, box))
             if sorted(sel['id']) != exp:
                 raise Failure(B + ['dask.cx', 'wrong-rows', 'active=' + g], f'ids={sorted(sel["id"])} expected {exp}')
+            # ... and the source collection still uses its own active column, also inside its partitions
+            names0 = lib(B + ['source-after', 'map_partitions'], lambda: list(ddf.map_partitions(lambda d: pd.Series([d.geometry.name]), meta=pd.Series([], dtype=object)).compute()))
+            if any(x != mdl['active'] for x in names0) or lib(B + ['source-after'], lambda: ddf.compute().geometry.name) != mdl['active']:
+                raise Failure(B + ['source-collection-changed'], f'source partitions report {names0} after set_geometry({g!r}) on a derived collection; source active is {mdl["active"]!r}')
+            self.check(df, mdl, B + ['source-frame-after'])
+        elif op == 'setgeom_same_then_inplace':
+            # set_geometry(<already active>) must give an independent frame: an in-place change of the result
+            # (a helper normalising its input) must not leak into the source
+            cands = [c for c in mdl['cols'] if c in GEOMS and c != mdl['active']]
+            if not cands:
+                return
+            tmpf = lib(B, df.set_geometry, mdl['active'])
+            self.check(tmpf, mdl, B + ['result'])
+            lib(B + ['inplace'], lambda: tmpf.set_geometry(cands[s['which'] % len(cands)], inplace=True))
+            self.check(df, mdl, B + ['source-after'])
+            self.big += 1
         elif op == 'col_subset':
             keep = [c for c in mdl['cols'] if c == mdl['active'] or c == 'id' or (c in s['extra'])]
             new = lib(B, lambda: df[keep])
@@ -431,7 +447,7 @@ def _header(draw):
 @st.composite
 def _step(draw):
     op = draw(st.sampled_from(['iloc_slice', 'iloc_list', 'loc_mask', 'bool_getitem', 'head', 'tail', 'sort_values', 'sort_index',
-                               'copy', 'pickle', 'reconstruct', 'col_subset', 'col_subset_nogeom', 'set_geometry', 'set_geometry', 'dask_set_geometry', 'cx', 'cx', 'cx',
+                               'copy', 'pickle', 'reconstruct', 'col_subset', 'col_subset_nogeom', 'set_geometry', 'set_geometry', 'setgeom_same_then_inplace', 'dask_set_geometry', 'dask_set_geometry', 'cx', 'cx', 'cx',
                                'build_sindex', 'concat', 'concat', 'dask_roundtrip', 'dask_roundtrip', 'parquet_dask', 'sjoin', 'pack_partitions']))
     s = {'op': op, 'src': draw(st.integers(0, 3))}
     small = st.integers(0, 9)
@@ -464,7 +480,9 @@ def _step(draw):
         s.update(npartitions=draw(small), region=draw(st.sampled_from(GEOMS)),
                  sizes=draw(st.one_of(st.none(), st.lists(st.integers(0, 20), min_size=1, max_size=3))))
     elif op in ('parquet_dask', 'dask_set_geometry'):
-        s.update(which=draw(small), npartitions=draw(small))
+        s.update(which=draw(small), npartitions=draw(small), in_memory=draw(st.booleans()))
+    elif op == 'setgeom_same_then_inplace':
+        s.update(which=draw(small))
     elif op == 'pack_partitions':
         s.update(p=draw(st.integers(2, 10)))
     return s
